@@ -56,6 +56,8 @@ fuzz_target!(|data: &[u8]| {
         units: vec![(1, unit_state()), (17, unit_state())],
         auth: None,
         decode,
+        // in a quarter of the inputs unit 33 is served by the handler instance of unit 1
+        aliases: if hdr[0] & 6 == 6 { vec![(33, 1)] } else { vec![] },
     };
     let case = C07Srv {
         cfg: cfg.clone(),
